@@ -429,6 +429,8 @@ class Z3Stats:
     queries = 0
     time = 0.0
     unknown = 0
+    record = None          # list of (smt2 text, verdict) when the batch is re-decided by a second solver
+    record_cap = 0
 
 
 def decide(z3, ctx, *formulas, timeout_ms=20000) -> str:
@@ -444,7 +446,79 @@ def decide(z3, ctx, *formulas, timeout_ms=20000) -> str:
     Z3Stats.time += _t.perf_counter() - t
     if r == 'unknown':
         Z3Stats.unknown += 1
+    rec = Z3Stats.record
+    if rec is not None and r != 'unknown':
+        # every query up to the cap, afterwards a thinning sample (so that late instances of a batch are seen too)
+        if len(rec) < Z3Stats.record_cap or Z3Stats.queries % 97 == 0:
+            if len(rec) < 4 * Z3Stats.record_cap:
+                rec.append((s.to_smt2(), r))
     return r
+
+
+def second_solver(records, timeout_s=300):
+    """Re-decide recorded z3 queries with the cvc5 binary (one incremental process, push/pop per query).
+    Returns {'checked', 'agree', 'disagree': [index...], 'errors', 'solver'}; any '(error' or missing answer counts as
+    an error for that query (inconclusive), never as agreement."""
+    import shutil
+    import subprocess
+    import tempfile
+    import os as _os
+    exe = shutil.which('cvc5')
+    out = {'checked': 0, 'agree': 0, 'disagree': [], 'errors': 0, 'solver': 'cvc5 (binary on PATH)' if exe else 'unavailable'}
+    if not exe or not records:
+        return out
+    parts = ['(set-logic ALL)']
+    for text, _ in records:
+        body = [ln for ln in text.splitlines() if ln.strip() and not ln.startswith(';') and not ln.startswith('(set-info') and ln.strip() != '(check-sat)']
+        parts.append('(push 1)')
+        parts.extend(body)
+        parts.append('(check-sat)')
+        parts.append('(pop 1)')
+    fd, path = tempfile.mkstemp(suffix='.smt2')
+    try:
+        with _os.fdopen(fd, 'w') as f:
+            f.write('\n'.join(parts) + '\n')
+        try:
+            p = subprocess.run([exe, '--incremental', '--tlimit-per=20000', path], stdout=subprocess.PIPE, stderr=subprocess.PIPE, text=True, timeout=timeout_s)
+            answers = [ln.strip() for ln in p.stdout.splitlines() if ln.strip()]
+        except subprocess.TimeoutExpired:
+            answers = []
+    finally:
+        _os.remove(path)
+    verdicts = [a for a in answers if a in ('sat', 'unsat', 'unknown') or a.startswith('(error')]
+    for i, (_, r) in enumerate(records):
+        a = verdicts[i] if i < len(verdicts) else 'missing'
+        if a in ('sat', 'unsat'):
+            out['checked'] += 1
+            if a == r:
+                out['agree'] += 1
+            else:
+                out['disagree'].append(i)
+        else:
+            out['errors'] += 1
+    return out
+
+
+def second_solver_selfcheck() -> str:
+    """negative control of the cross-check: a satisfiable and an unsatisfiable query recorded with the WRONG verdict must
+    both come back as disagreements, recorded with the right verdict as agreements. 'ok' | 'unavailable' | reason."""
+    import z3
+    ctx = z3.Context()
+    a, b = z3.Bool('a', ctx), z3.Bool('b', ctx)
+    texts = []
+    for f in (z3.And(a, z3.Not(b, ctx), ctx), z3.And(a, z3.Not(a, ctx), ctx)):
+        s = z3.Solver(ctx=ctx)
+        s.add(f)
+        texts.append(s.to_smt2())
+    good = second_solver([(texts[0], 'sat'), (texts[1], 'unsat')])
+    if good['solver'] == 'unavailable':
+        return 'unavailable'
+    bad = second_solver([(texts[0], 'unsat'), (texts[1], 'sat')])
+    if good['agree'] != 2 or good['disagree'] or good['errors']:
+        return 'control queries not confirmed: %r' % (good,)
+    if bad['disagree'] != [0, 1]:
+        return 'wrong verdicts not detected: %r' % (bad,)
+    return 'ok'
 
 
 def equivalent(z3, ctx, f, g) -> Optional[bool]:
